@@ -492,6 +492,9 @@ pub enum Piece {
     Blocks(u8, i8),
     /// a long piece: 2 KiB + 4 * n bytes (up to ~260 KiB)
     Big(u16),
+    /// a very long piece: (k + 1) * 64 KiB + delta bytes (64 KiB .. 1.5 MiB for k < 24): bulk paths that only start
+    /// at some large size of ONE call
+    Huge(u8, i8),
 }
 
 #[derive(Clone, Debug, Serialize, Deserialize)]
@@ -520,7 +523,8 @@ pub fn piece() -> BoxedStrategy<Piece> {
         16 => prop_oneof![Just(0u16), Just(1u16), 0u16..700].prop_map(Piece::Fixed),
         16 => (-2i8..3).prop_map(Piece::ToBoundary),
         12 => (1u8..5, -2i8..3).prop_map(|(k, d)| Piece::Blocks(k, d)),
-        1 => prop_oneof![4 => 0u16..4096, 1 => any::<u16>()].prop_map(Piece::Big),
+        1 => prop_oneof![16 => (0u16..4096).prop_map(Piece::Big), 4 => any::<u16>().prop_map(Piece::Big),
+                         1 => (prop_oneof![Just(0u8), Just(15u8), 0u8..24], -3i8..4).prop_map(|(k, d)| Piece::Huge(k, d))],
     ]
     .boxed()
 }
@@ -561,6 +565,7 @@ pub fn piece_len(p: &Piece, fill: usize, b: usize) -> usize {
         Piece::ToBoundary(d) => (b as i64 - fill as i64 + *d as i64).max(0) as usize,
         Piece::Blocks(k, d) => ((*k as i64) * b as i64 - fill as i64 + *d as i64).max(0) as usize,
         Piece::Big(k) => 2048 + 4 * (*k as usize),
+        Piece::Huge(k, d) => ((((*k as usize) % 24 + 1) << 16) as i64 + *d as i64) as usize,
     }
 }
 
@@ -708,6 +713,30 @@ pub fn run_c08(ctx: &mut Ctx) {
         let n = if spec.family == Family::Jh || spec.family == Family::Groestl { n / 4 } else { n };
         ctx.run(&format!("history/{}", spec.name), n, hhistory_strategy(vec![spec.name.clone()], 20), |c, i| hhistory_check("C08", &one, c, i));
     }
+    // one very long update call (64 KiB .. 1.5 MiB) on an instance whose buffer is empty / nearly empty / nearly full,
+    // finalised at once or after a few more bytes: every type, full list in every worker
+    let mut sd = ctx.seed ^ 0x10c8;
+    for spec in specs.iter() {
+        let mut long = Vec::new();
+        for first in [0u16, 7, spec.block as u16 - 1] {
+            for (k, d) in [(0u8, 0i8), (0, 5), (3, -1), (15, 0), (15, 5), (23, -1)] {
+                for tail in [None, Some(5u16)] {
+                    let mut ops = vec![HOp::Update(0, Piece::Fixed(first)), HOp::Update(0, Piece::Huge(k, d))];
+                    if let Some(t) = tail {
+                        ops.push(HOp::Update(0, Piece::Fixed(t)));
+                    }
+                    ops.push(HOp::Finalize(0));
+                    long.push(HHistory { hash: spec.name.clone(), seed: crate::engine::splitmix(&mut sd), pat: 0, ops });
+                }
+            }
+        }
+        let one = vec![spec.clone()];
+        ctx.run_list(&format!("long-piece/{}", spec.name), long, move |c, i| {
+            i.label("one update call of >= 64 KiB");
+            hhistory_check("C08", &one, c, i)
+        });
+    }
+    ctx.required_classes.push("one update call of >= 64 KiB".into());
     for c in ["finalised a clone that diverged", "finalised an instance reused after reset", "finalised an instance reused after finalize_reset",
         "finalised an instance reused after finalize_fixed_reset", "finalised after >=2 updates with a boundary piece", "empty piece",
         "piece fills the buffer exactly", "piece spans several blocks"] {
@@ -958,6 +987,13 @@ pub fn one_call_check(specs: &[HashSpec], c: &OneCall, info: &mut CaseInfo) -> R
         let n = (len - data.len()).min(tile.len());
         data.extend_from_slice(&tile[..n]);
     }
+    // not periodic: every MiB starts with its own index (an offset computed in a narrow type re-reads earlier data,
+    // which periodic content would hide)
+    for (i, ch) in data.chunks_mut(1 << 20).enumerate() {
+        for (b, x) in ch.iter_mut().zip((i as u64 + 1).to_le_bytes()) {
+            *b ^= x;
+        }
+    }
     info.nontrivial = true;
     info.label(format!("single update of 2^{} bytes {}", c.exp, spec.name));
     let pieces = guard(|| {
@@ -1027,6 +1063,11 @@ pub fn run_c17(ctx: &mut Ctx) {
         calls.push(OneCall { hash: "Skein512<64>".into(), exp: 32, tail: 100, seed: ctx.seed ^ 3 });
         calls.push(OneCall { hash: "Skein256<32>".into(), exp: 32, tail: 0, seed: ctx.seed ^ 4 });
         calls.push(OneCall { hash: "Blake512".into(), exp: 29, tail: 5, seed: ctx.seed ^ 5 });
+        // a slice of more than 4 GiB in one call (byte offsets / block counts of the call held in 32 bits)
+        calls.push(OneCall { hash: "Groestl256".into(), exp: 32, tail: 677, seed: ctx.seed ^ 6 });
+        calls.push(OneCall { hash: "Groestl512".into(), exp: 32, tail: 5, seed: ctx.seed ^ 7 });
+        calls.push(OneCall { hash: "Blake384".into(), exp: 32, tail: 64, seed: ctx.seed ^ 8 });
+        calls.push(OneCall { hash: "Jh512".into(), exp: 32, tail: 1, seed: ctx.seed ^ 9 });
     }
     let s4 = specs.clone();
     ctx.run_list("one-call", calls, |c, i| one_call_check(&s4, c, i));
